@@ -41,6 +41,82 @@ impl DbCfg {
     }
 }
 
+/// C18: deterministic compaction filter rules.
+pub mod filt {
+    use fjall::compaction::filter::{CompactionFilter, Context, Factory, ItemAccessor, Verdict};
+    use std::sync::atomic::{AtomicU64, Ordering};
+    use std::sync::Mutex;
+
+    pub static INVOCATIONS: AtomicU64 = AtomicU64::new(0);
+    pub static FOREIGN: Mutex<Vec<String>> = Mutex::new(Vec::new());
+
+    /// keyspaces with an even index get a filter
+    pub fn assigned_name(name: &str) -> Option<u8> {
+        let idx: u8 = name.strip_prefix("ks")?.parse().ok()?;
+        if idx % 2 == 0 {
+            Some(idx)
+        } else {
+            None
+        }
+    }
+    pub fn assigned(ks: u8) -> bool {
+        ks % 2 == 0
+    }
+    /// 0 = keep, 1 = remove, 2 = replace
+    pub fn verdict(key: &[u8]) -> u8 {
+        match crate::util::fnv(key) % 4 {
+            0 | 1 => 0,
+            2 => 1,
+            _ => 2,
+        }
+    }
+    pub fn replaced(key: &[u8]) -> Vec<u8> {
+        let mut v = b"R:".to_vec();
+        v.extend_from_slice(key);
+        v
+    }
+    pub struct F {
+        pub ks: u8,
+    }
+    impl CompactionFilter for F {
+        fn filter_item(&mut self, item: ItemAccessor<'_>, _ctx: &Context) -> Result<Verdict, fjall::LsmError> {
+            INVOCATIONS.fetch_add(1, Ordering::Relaxed);
+            let key = item.key();
+            if key.first().copied() != Some(b'0' + self.ks) {
+                if let Ok(mut g) = FOREIGN.lock() {
+                    g.push(format!(
+                        "filter assigned to ks{} was invoked with key {} of another keyspace",
+                        self.ks,
+                        crate::util::show(key)
+                    ));
+                }
+                return Ok(Verdict::Keep);
+            }
+            Ok(match verdict(key) {
+                0 => Verdict::Keep,
+                1 => Verdict::Remove,
+                _ => Verdict::ReplaceValue(replaced(key).into()),
+            })
+        }
+    }
+    pub struct Fac {
+        pub ks: u8,
+    }
+    impl Factory for Fac {
+        fn name(&self) -> &str {
+            "fjv-filter"
+        }
+        fn make_filter(&self, _ctx: &Context) -> Box<dyn CompactionFilter> {
+            Box::new(F { ks: self.ks })
+        }
+    }
+    pub fn assigner() -> super::FilterAssigner {
+        std::sync::Arc::new(|name: &str| {
+            assigned_name(name).map(|ks| std::sync::Arc::new(Fac { ks }) as std::sync::Arc<dyn Factory>)
+        })
+    }
+}
+
 pub enum Front {
     Plain(Database),
     Single(SingleWriterTxDatabase),
@@ -233,6 +309,16 @@ pub struct Exec {
     pub wepoch: BTreeMap<(u8, Vec<u8>), u32>,
     /// highest batch seqno present in the journal files just before the last reopen
     pub journal_seqno_before_reopen: Option<u64>,
+    /// C18 mode: keyspaces with an even index have a compaction filter
+    pub filtered: bool,
+    /// keys observed in filtered form since their last write
+    pub seen_filtered: std::collections::BTreeSet<(u8, Vec<u8>)>,
+    /// number of filtered checks per keyspace since the last (re)open
+    pub checks_since_open: BTreeMap<u8, u32>,
+    /// keys whose latest write came from a bulk ingestion (not journaled)
+    pub ingested_last: std::collections::BTreeSet<(u8, Vec<u8>)>,
+    /// deviations that are classified as known findings and do not end the case
+    pub soft: Vec<Deviation>,
 }
 
 fn err(sig: &str, what: &str, e: &fjall::Error) -> Deviation {
@@ -257,6 +343,11 @@ impl Exec {
             epoch: BTreeMap::new(),
             wepoch: BTreeMap::new(),
             journal_seqno_before_reopen: None,
+            filtered: false,
+            seen_filtered: std::collections::BTreeSet::new(),
+            checks_since_open: BTreeMap::new(),
+            ingested_last: std::collections::BTreeSet::new(),
+            soft: Vec::new(),
         }
     }
 
@@ -304,6 +395,7 @@ impl Exec {
         }
         .map_err(|e| err("open", &format!("open #{} of {}", self.opens, self.path.display()), &e))?;
         self.front = Some(f);
+        self.checks_since_open.clear();
         self.cfg.front = front;
         self.opens += 1;
         self.stats.inc("opens");
@@ -475,6 +567,9 @@ impl Exec {
             Err(_) => self.emit_mark(&format!("A {idx} err")),
         }
         r?;
+        if self.filtered && op.is_write() {
+            self.forget_filtered(op);
+        }
         self.stats.inc(&format!("op.{}", op.kind()));
         if op.is_write() || matches!(op, Op::Rotate { .. }) {
             self.pump()?;
@@ -799,7 +894,161 @@ impl Exec {
         Ok(())
     }
 
+    fn forget_filtered(&mut self, op: &Op) {
+        match op {
+            Op::Insert { ks, key, .. } => {
+                self.ingested_last.remove(&(*ks, key.clone()));
+            }
+            Op::Batch { items, .. } | Op::Tx { items, .. } => {
+                for it in items {
+                    self.ingested_last.remove(&(it.ks, it.key.clone()));
+                }
+            }
+            Op::Ingest { ks, items } => {
+                for (k, _) in items {
+                    self.ingested_last.insert((*ks, k.clone()));
+                }
+            }
+            _ => {}
+        }
+        match op {
+            Op::Insert { ks, key, .. } | Op::Remove { ks, key } | Op::RemoveWeak { ks, key } => {
+                self.seen_filtered.remove(&(*ks, key.clone()));
+            }
+            Op::Batch { items, .. } | Op::Tx { items, .. } => {
+                for it in items {
+                    self.seen_filtered.remove(&(it.ks, it.key.clone()));
+                }
+            }
+            Op::Clear { ks } => self.seen_filtered.retain(|(k, _)| k != ks),
+            Op::Ingest { ks, items } => {
+                for (k, _) in items {
+                    self.seen_filtered.remove(&(*ks, k.clone()));
+                }
+            }
+            _ => {}
+        }
+    }
+
+    /// C18 oracle for a keyspace with an assigned filter. `strict`: everything was flushed and a
+    /// major compaction returned, so remove/replace keys must be in filtered form.
+    pub fn filtered_check(&mut self, ks: u8, strict: bool) -> R<()> {
+        let h = self.handle(ks)?;
+        let exp = self.model.ks[&ks].map.clone();
+        let what = format!("{}@latest(filtered)", ks_name(ks));
+        if self.cfg.workers > 0 {
+            // background compactions may apply the filter between two reads: compare at rest
+            self.wait_quiescent()?;
+        }
+        let scan = crate::sweep::dump(&h)?;
+        let mut keys: std::collections::BTreeSet<Vec<u8>> = exp.keys().cloned().collect();
+        keys.extend(scan.keys().cloned());
+        for k in keys {
+            let e = exp.get(&k);
+            let s = scan.get(&k);
+            let g = h
+                .get(&k)
+                .map_err(|e| Deviation::new("read-error:get", format!("{what}: {e:?}")))?
+                .map(|v| v.to_vec());
+            if g.as_ref() != s {
+                return Err(Deviation::new(
+                    "filter:point-scan-disagree",
+                    format!("{what}: key {}: get = {:?}, scan = {:?}", show(&k), g.as_deref().map(show), s.map(|v| show(v))),
+                ));
+            }
+            self.stats.inc("filter.keys_checked");
+            let v = filt::verdict(&k);
+            let filtered_form: Option<Vec<u8>> = match (v, e) {
+                (_, None) => None,
+                (0, Some(x)) => Some(x.clone()),
+                (1, Some(_)) => None,
+                (_, Some(_)) => Some(filt::replaced(&k)),
+            };
+            let is_original = s == e;
+            let is_filtered = s == filtered_form.as_ref();
+            if v == 0 || e.is_none() {
+                if !is_original {
+                    return Err(Deviation::new(
+                        "filter:keep-key-altered",
+                        format!(
+                            "{what}: key {} (verdict keep or absent in the reference) shows {:?}, expected {:?}",
+                            show(&k),
+                            s.map(|v| show(v)),
+                            e.map(|v| show(v))
+                        ),
+                    ));
+                }
+                continue;
+            }
+            if !is_original && !is_filtered {
+                return Err(Deviation::new(
+                    "filter:neither-original-nor-filtered",
+                    format!(
+                        "{what}: key {} (verdict {}) shows {:?}, expected original {:?} or filtered {:?}",
+                        show(&k),
+                        if v == 1 { "remove" } else { "replace" },
+                        s.map(|v| show(v)),
+                        e.map(|v| show(v)),
+                        filtered_form.as_deref().map(show)
+                    ),
+                ));
+            }
+            let key = (ks, k.clone());
+            if is_filtered && !is_original {
+                self.seen_filtered.insert(key);
+                self.stats.inc("filter.observed_filtered");
+            } else if is_original && !is_filtered {
+                let first_after_reopen =
+                    self.opens >= 2 && self.checks_since_open.get(&ks).copied().unwrap_or(0) == 0;
+                if self.seen_filtered.contains(&key) && first_after_reopen && !self.ingested_last.contains(&key) {
+                    // explained-by predicate (DESIGN.md App. D, F4): the first observation after a
+                    // reopen, of a key whose current value was written by a journaled operation
+                    self.seen_filtered.remove(&key);
+                    if self.soft.len() < 4 {
+                        self.soft.push(Deviation::new(
+                            "known:filtered-item-journal-replay-after-reopen",
+                            format!(
+                                "{what}: key {} had been observed in filtered form; the first read after a reopen shows its original (journaled) value again",
+                                show(&k)
+                            ),
+                        ));
+                    }
+                    self.stats.inc("filter.journal_replay_after_reopen");
+                    continue;
+                }
+                if self.seen_filtered.contains(&key) {
+                    return Err(Deviation::new(
+                        "filter:original-after-filtered",
+                        format!("{what}: key {} was observed filtered and is original again with no write in between", show(&k)),
+                    ));
+                }
+                if strict {
+                    return Err(Deviation::new(
+                        "filter:not-applied-after-major-compaction",
+                        format!(
+                            "{what}: key {} (verdict {}) is still in original form after everything was flushed and major_compact returned",
+                            show(&k),
+                            if v == 1 { "remove" } else { "replace" }
+                        ),
+                    ));
+                }
+                self.stats.inc("filter.observed_original");
+            }
+        }
+        *self.checks_since_open.entry(ks).or_insert(0) += 1;
+        if let Ok(mut g) = filt::FOREIGN.lock() {
+            if let Some(m) = g.pop() {
+                g.clear();
+                return Err(Deviation::new("filter:foreign-keyspace", m));
+            }
+        }
+        Ok(())
+    }
+
     pub fn sweep_ks(&mut self, ks: u8, depth: u8) -> R<()> {
+        if self.filtered && filt::assigned(ks) {
+            return self.filtered_check(ks, false);
+        }
         let h = self.handle(ks)?;
         let exp = self.model.ks[&ks].map.clone();
         let what = format!("{}@latest", ks_name(ks));
